@@ -129,13 +129,15 @@ func runC13(c *core.Ctx) error {
 	defer drv.Close()
 	batches := c.Pick(1, 12)
 	per := c.Pick(40, 60)
-	c.Ev.Coverage.Rule = "cases = schema from the compile-matrix profile (each annotation on each cardinality the plugins accept it on, several annotations per message, annotations on oneof members, identifier-hostile field/method names, several services per file, service-less second files, mock generation) x plugin subset {go-http only, go-client only, both in one package (alternating write order)}; oracle = `go build` plus the vet analyzers `go test` runs on the emitted package with protoc-gen-go output (no harness glue in the package), and a clean import of every emitted .ts module in Node 22. Non-trivial = schema with a JSON-mapping annotation, a digit/hostile identifier or a second file; distinct by (schema, subset)."
+	c.Ev.Coverage.Rule = "cases = schema from the compile-matrix profile or, for half of them, from the minimal profile (one service, one RPC, <= 2 fields: single-construct files) (each annotation on each cardinality the plugins accept it on, several annotations per message, annotations on oneof members, identifier-hostile field/method names, several services per file, service-less second files, mock generation) x plugin subset {go-http only, go-client only, both in one package (alternating write order)}; oracle = `go build` plus the vet analyzers `go test` runs on the emitted package with protoc-gen-go output (no harness glue in the package), and a clean import of every emitted .ts module in Node 22. Non-trivial = schema with a JSON-mapping annotation, a digit/hostile identifier or a second file; distinct by (schema, subset)."
 	c.Ev.Assumptions = []string{"generated Go is compiled against a stand-in protovalidate module with the same API", "TypeScript is loaded by Node's type stripping: syntax/load errors are detected, type errors are not (no tsc offline)"}
 	prof := schema.ProfileMatrix(avoid)
 	reductions := 0
 	maxReductions := c.Pick(3, 12)
 	for b := 0; b < batches; b++ {
 		schemas := drawSchemas(c, prof, "m", per, b)
+		// single-construct files: what a rich file masks (an import or helper another construct provides)
+		schemas = append(schemas, drawSchemas(c, schema.ProfileMinimal(avoid), "n", per, b)...)
 		for _, s := range schemas {
 			countAvoided(c, s, avoid)
 		}
